@@ -14,6 +14,9 @@ def U(ident, **kw):
 
 def pivot():
     S = []
+    S.append(EnumSpec("ViaMacro", [U("A", message="first"), U("B", message="m3", detailed_message="detail"), U("C", docs=[" Doc line", " second"]), U("D")],
+                      macro_args=[("m", "literal", '"first"'), ("d", "literal", '"detail"'), ("doc", "literal", '" Doc line"')], macro_replace=True,
+                      note="the definition is the body of a macro_rules! macro: message / detailed_message / doc texts arrive as $x:literal fragments"))
     S.append(EnumSpec("Msg", [
         U("None_"),
         U("OnlyMsg", message="m1"),
